@@ -5,10 +5,11 @@ Two models, both executable, core Lean only (linked into `bsmodel`).
 
 * **Writer model** (`Dap.Writer`): the three threads that write to the transport — the session
   thread (id 0), the stdout forwarder (1) and the stderr forwarder (2) — each performing the two
-  atomic steps the code performs for every message: *allocate* a sequence number
-  (`server_seq.fetch_add(1)`; `send_response_raw`, `send_event_raw` and both forwarder loops take it
-  **before** `self.io.lock()`), then *lock the transport and write*.  A schedule is a list of writer
-  ids; a writer's steps alternate allocate / write.
+  atomic steps the code performs for every message: *lock the transport and allocate* a sequence
+  number (`next_seq(server_seq, locked transport)`: `send_response_raw`, `send_event_raw` and the
+  forwarder loop take it **while they hold** `io.lock()`), then *write and unlock*.  A schedule is a
+  list of writer ids; a writer's steps alternate allocate / write; a writer scheduled while another
+  one holds the lock is blocked (its step does nothing).
 * **Session model** (`Dap.Session`): the internal event queue, `drain_events` (lifecycle dominance,
   `terminated` latch, `emit_process_end`) and the per-command handler skeletons of `dispatch` —
   the order of {validate arguments, fallible debugger call, send response, enqueue events, drain} —
@@ -29,43 +30,32 @@ structure WMsg where
   label : Nat := 0
   deriving Repr, DecidableEq
 
-/-- shared state: the atomic counter (`server_seq`, starts at 1), per writer the number it has
-allocated and not yet written, and the wire (in write order = order of `io.lock()` acquisition) -/
+/-- shared state: the atomic counter (`server_seq`, starts at 1), who holds the transport lock
+together with the number it took under it (not yet written), and the wire (in write order) -/
 structure St where
   next : Nat := 1
-  pending : Nat → Option Nat := fun _ => none
+  holder : Option (Nat × Nat) := none
   wire : List WMsg := []
 
-/-- one atomic step of writer `w`: allocate if it holds no number, otherwise lock + write -/
+/-- one atomic step of writer `w`: lock + allocate if the transport is free; write + unlock if `w`
+holds the lock; blocked (nothing happens) while another writer holds it.  (As found, the number was
+taken BEFORE the lock: writer 1 allocates 1, writer 0 allocates 2 and writes, writer 1 writes — the
+wire read `2,1`; `corpus/C12/forwarder-late.req` forces that schedule and must no longer reorder.) -/
 def step (s : St) (w : Nat) : St :=
-  match s.pending w with
-  | none => { s with next := s.next + 1, pending := fun v => if v = w then some s.next else s.pending v }
-  | some n => { s with pending := fun v => if v = w then none else s.pending v,
-                       wire := s.wire ++ [{ writer := w, seq := n }] }
+  match s.holder with
+  | none => { s with next := s.next + 1, holder := some (w, s.next) }
+  | some (v, n) =>
+    if v = w then { s with holder := none, wire := s.wire ++ [{ writer := w, seq := n }] } else s
 
 def run (sched : List Nat) : St := sched.foldl step {}
 
 /-- the sequence numbers in wire order -/
 def wireSeqs (sched : List Nat) : List Nat := (run sched).wire.map (·.seq)
 
-/-- the repaired discipline: the number is taken while the transport lock is held, i.e. allocate and
-write are one atomic step -/
-def stepLocked (s : St) (w : Nat) : St :=
-  { s with next := s.next + 1, wire := s.wire ++ [{ writer := w, seq := s.next }] }
-
-def runLocked (sched : List Nat) : St := sched.foldl stepLocked {}
-
 /-- `[a, a+1, …, a+n-1]` -/
 def iota (a : Nat) : Nat → List Nat
   | 0 => []
   | n + 1 => a :: iota (a + 1) n
-
-/-- a schedule in which no writer allocates while another one holds an unwritten number
-("single writer at a time"): every allocation step is immediately followed by the same writer's write -/
-def serial : List Nat → Bool
-  | [] => true
-  | [_] => true
-  | a :: b :: rest => a == b && serial rest
 
 end Writer
 
@@ -122,7 +112,7 @@ inductive QEv
 /-- events as they appear on the wire -/
 inductive Ev
   | q (e : QEv)          -- from the queue
-  | initialized          -- `send_event("initialized")` in `handle_initialize`: never queued
+  | initialized          -- `InternalEvent::Initialized`, queued by `handle_initialize`
   | moduleRemoved | sourceRemoved | threadExitedAtEnd   -- `emit_process_end` (direct sends inside `drain_events`)
   | exited | terminated  -- lifecycle, only from `drain_events`
   deriving Repr, DecidableEq
@@ -130,6 +120,7 @@ inductive Ev
 /-- `InternalEvent` (the queue) -/
 inductive IEv
   | ev (e : QEv)
+  | initialized
   | exited
   | terminated
   deriving Repr, DecidableEq
@@ -169,6 +160,7 @@ def IEv.isTerminated : IEv → Bool | .terminated => true | _ => false
 def sendAll : List IEv → List Msg
   | [] => []
   | .ev e :: r => Msg.event (.q e) :: sendAll r
+  | .initialized :: r => Msg.event .initialized :: sendAll r
   | _ :: r => sendAll r
 
 /-- `drain_events`.  `nThreads` = size of `thread_cache` when the process ends (observed).
@@ -189,7 +181,6 @@ def drain (s : Sess) (nThreads : Nat) : Sess × List Msg :=
 /-- the atomic actions a handler is made of: its *skeleton* is a list of these -/
 inductive Act
   | respond (ok : Bool)      -- `send_response_raw` for the request being handled
-  | sendInitialized          -- `send_event("initialized")`: the only event sent without going through the queue
   | enq (es : List IEv)      -- `enqueue_event` (several)
   | drain (nThreads : Nat)   -- `drain_events()`
   | setDbg (d : Dbg)         -- the debugger appears / changes execution status / is dropped
@@ -201,7 +192,6 @@ inductive Act
 
 def execAct (r : Req) (s : Sess) : Act → Sess × List Msg
   | .respond ok => (s, [.resp r.cmd ok r.seq])
-  | .sendInitialized => (s, [.event .initialized])
   | .enq es => ({ s with queue := s.queue ++ es }, [])
   | .drain n => drain s n
   | .setDbg d => ({ s with dbg := d }, [])
@@ -262,7 +252,7 @@ debugger call, send response, enqueue events, drain} as a list of actions, and t
 Control flow depends on the session only through `dbg` and the number of breakpoint records. -/
 def plan (dbg : Dbg) (bpRecords : Nat) (r : Req) (h : Hint) : List Act × HRes :=
   match r.cmd with
-  | .initialize => ([.respond true, .sendInitialized], .ok)   -- `send_event`: not queued
+  | .initialize => ([.respond true, .enq [.initialized], .drain 0], .ok)   -- queued: behind the latch
   | .launch =>
     if badArgs r.cmd r.mutn then ([], .err)
     else if r.mutn == .nofile then
@@ -302,11 +292,14 @@ def plan (dbg : Dbg) (bpRecords : Nat) (r : Req) (h : Hint) : List Act × HRes :
     else if dbg == .inProgress && h.evalOk then ([.respond true], .ok)
     else ([], .err)
   | .continue_ =>
-    -- the response is sent BEFORE the fallible debugger call (control.rs handle_continue)
-    let pre : List Act := [.enq [.ev .continued], .respond true, .drain 0]
-    if dbg != .inProgress then (pre, .err)
-    else match h.outcome with
-      | .none => (pre, .err)
+    -- the precondition is checked first; then the response and `continued` are sent BEFORE the
+    -- blocking debugger call; a failure of that call is announced as a stop, not as a second response
+    -- (control.rs handle_continue, emit_stop_reason_answered)
+    if dbg != .inProgress then ([], .err)
+    else
+      let pre : List Act := [.enq [.ev .continued], .respond true, .drain 0]
+      match h.outcome with
+      | .none => (pre ++ [.enq (threadEvents h ++ [.ev (.stopped "exception")]), .drain 0], .ok)
       | _ => (pre ++ emitStop h, .ok)
   | .next | .stepIn | .stepOut => stepPlan dbg h
   | .pause =>
@@ -372,8 +365,8 @@ inductive Life | fresh | exited | terminated
 * a `launch` request opens a new lifecycle;
 * `exited` only in `fresh`, and `terminated` must follow before anything else is written or received;
 * `terminated` only in `fresh`/`exited` (at most once);
-* in `terminated` no event at all may be written (`strict`), or none except the non-queued
-  `initialized` (`strict = false`). -/
+* in `terminated` no event at all may be written (`strict`), or none except `initialized`
+  (`strict = false`: what the adapter did while `initialized` bypassed the queue). -/
 def lifeStep (strict : Bool) (st : Life) : Item → Option Life
   | .req .launch => if st == .exited then none else some .fresh
   | .msg (.event .exited) => if st == .fresh then some .exited else none
